@@ -190,16 +190,24 @@ _ROTATION = [0]
 
 def register_children(cfg, nodes, api, log, prefix, sub):
     """Registers the (sub-)command configurations through one of the public ways, in rotation: one call per
-    configuration, one call with a list, one call with a generator, or create_(sub_)command(name) + configuring
-    the returned object."""
+    configuration, one call with a list, one call with a generator, create_(sub_)command(name) + configuring
+    the returned object, or creating all and configuring each through edit_(sub_)command(name)."""
     if not nodes:
         return
     _ROTATION[0] += 1
-    how = _ROTATION[0] % 4
+    how = _ROTATION[0] % 5
     if how == 3:
         for n in nodes:
             c = cfg.create_sub_command(n["name"]) if sub else cfg.create_command(n["name"])
             configure_command(c, n, api, log, prefix)
+        return
+    if how == 4:
+        # all created first, each configured afterwards through edit_(sub_)command(name)
+        for n in nodes:
+            cfg.create_sub_command(n["name"]) if sub else cfg.create_command(n["name"])
+        for n in nodes:  # same order as every other route: the recording handlers' styles rotate with the order of installation
+            with (cfg.edit_sub_command(n["name"]) if sub else cfg.edit_command(n["name"])) as c:
+                configure_command(c, n, api, log, prefix)
         return
     made = []
     for n in nodes:
